@@ -1,11 +1,348 @@
-//! C20 — not built yet.
+//! C20 — open is total on arbitrary bytes; accessors and verify() are total on anything that opens;
+//! the library contains no `unsafe`.
+//!
+//! case format:  open <hex> <R|N>
+//!   R = `root().addr()` returned on this input when the case was generated, so the root address is
+//!       part of the compared observation; N = decoding the root node panics (allowed: it is not a
+//!       metadata accessor), the root address is then not observable through the public API.
+use crate::c08::{gen_keys, outcome, small_fsts};
 use crate::common::*;
+use fst::raw::Fst;
+use std::panic;
+use std::path::{Path, PathBuf};
+
 pub struct P;
-impl Prop for P {
-    fn generate(&self, _tier: Tier, _rng: &mut Rng, _stats: &mut Stats) -> Vec<String> {
-        vec![]
+
+fn root_observable(bytes: &[u8]) -> Option<usize> {
+    let r = panic::catch_unwind(panic::AssertUnwindSafe(|| match Fst::new(bytes) {
+        Ok(f) => Some(f.root().addr()),
+        Err(_) => None,
+    }));
+    match r {
+        Ok(x) => x,
+        Err(_) => None,
     }
-    fn execute(&self, _case: &str) -> String {
-        String::new()
+}
+fn case_of(bytes: &[u8], stats: &mut Stats) -> String {
+    let r = root_observable(bytes);
+    if r.is_some() {
+        stats.bump("root_address_observable");
+    }
+    format!("open {} {}", hex(bytes), if r.is_some() { "R" } else { "N" })
+}
+
+fn put64(b: &mut [u8], at: isize, v: u64) {
+    if at >= 0 && (at as usize) + 8 <= b.len() {
+        b[at as usize..at as usize + 8].copy_from_slice(&v.to_le_bytes());
+    }
+}
+
+// ---------- "no unsafe": token scan ----------
+/// positions (line numbers) of the keyword `unsafe` outside comments, doc comments, string,
+/// byte-string, raw-string and char literals
+fn scan_unsafe(src: &str) -> Vec<usize> {
+    let b = src.as_bytes();
+    let mut hits = vec![];
+    let mut i = 0;
+    let mut line = 1;
+    let is_ident = |c: u8| c == b'_' || c.is_ascii_alphanumeric();
+    while i < b.len() {
+        let c = b[i];
+        if c == b'\n' {
+            line += 1;
+            i += 1;
+        } else if c == b'/' && i + 1 < b.len() && b[i + 1] == b'/' {
+            while i < b.len() && b[i] != b'\n' {
+                i += 1;
+            }
+        } else if c == b'/' && i + 1 < b.len() && b[i + 1] == b'*' {
+            let mut depth = 1;
+            i += 2;
+            while i < b.len() && depth > 0 {
+                if b[i] == b'\n' {
+                    line += 1;
+                }
+                if b[i] == b'/' && i + 1 < b.len() && b[i + 1] == b'*' {
+                    depth += 1;
+                    i += 2;
+                } else if b[i] == b'*' && i + 1 < b.len() && b[i + 1] == b'/' {
+                    depth -= 1;
+                    i += 2;
+                } else {
+                    i += 1;
+                }
+            }
+        } else if c == b'"' {
+            i += 1;
+            while i < b.len() && b[i] != b'"' {
+                if b[i] == b'\\' {
+                    i += 1;
+                }
+                if i < b.len() && b[i] == b'\n' {
+                    line += 1;
+                }
+                i += 1;
+            }
+            i += 1;
+        } else if c == b'r' && i + 1 < b.len() && (b[i + 1] == b'"' || b[i + 1] == b'#') && (i == 0 || !is_ident(b[i - 1])) {
+            // raw string r"..." / r#"..."#
+            let mut j = i + 1;
+            let mut hashes = 0;
+            while j < b.len() && b[j] == b'#' {
+                hashes += 1;
+                j += 1;
+            }
+            if j < b.len() && b[j] == b'"' {
+                j += 1;
+                'outer: while j < b.len() {
+                    if b[j] == b'\n' {
+                        line += 1;
+                    }
+                    if b[j] == b'"' {
+                        let mut k = 0;
+                        while k < hashes && j + 1 + k < b.len() && b[j + 1 + k] == b'#' {
+                            k += 1;
+                        }
+                        if k == hashes {
+                            j += 1 + hashes;
+                            break 'outer;
+                        }
+                    }
+                    j += 1;
+                }
+                i = j;
+            } else {
+                i += 1;
+            }
+        } else if c == b'\'' {
+            // char literal or lifetime
+            if i + 2 < b.len() && b[i + 1] == b'\\' {
+                i += 2;
+                while i < b.len() && b[i] != b'\'' {
+                    i += 1;
+                }
+                i += 1;
+            } else if i + 2 < b.len() && b[i + 2] == b'\'' {
+                i += 3;
+            } else {
+                i += 1; // lifetime
+            }
+        } else if is_ident(c) {
+            let s = i;
+            while i < b.len() && is_ident(b[i]) {
+                i += 1;
+            }
+            if &b[s..i] == b"unsafe" {
+                hits.push(line);
+            }
+        } else {
+            i += 1;
+        }
+    }
+    hits
+}
+
+fn rs_files(dir: &Path, out: &mut Vec<PathBuf>) {
+    if let Ok(rd) = std::fs::read_dir(dir) {
+        let mut es: Vec<_> = rd.filter_map(|e| e.ok()).map(|e| e.path()).collect();
+        es.sort();
+        for p in es {
+            if p.is_dir() {
+                rs_files(&p, out);
+            } else if p.extension().map(|e| e == "rs").unwrap_or(false) {
+                out.push(p);
+            }
+        }
+    }
+}
+
+impl Prop for P {
+    fn generate(&self, tier: Tier, rng: &mut Rng, stats: &mut Stats) -> Vec<String> {
+        let mut cases = vec![];
+        let (n_rand, n_valid, fills) = match tier {
+            Tier::Quick => (3000, 10, 1),
+            Tier::Thorough => (60000, 60, 3),
+            Tier::Wide => (12000, 30, 2),
+        };
+        // (1) header/footer boundary values for every length 0..=64
+        for l in 0usize..=64 {
+            let li = l as u64;
+            let versions = [0u64, 1, 2, 3, 4, u64::MAX];
+            let roots = [
+                0u64,
+                1,
+                li.wrapping_sub(21),
+                li.wrapping_sub(17),
+                li.wrapping_sub(20),
+                li.wrapping_sub(22),
+                li.wrapping_sub(16),
+                li,
+                li.wrapping_add(1),
+                u64::MAX,
+                u64::MAX - 20,
+                u64::MAX - 16,
+            ];
+            let lens = [0u64, 1, u64::MAX];
+            for fill in 0..=fills {
+                for &v in &versions {
+                    for &r in &roots {
+                        for &n in &lens {
+                            let mut b: Vec<u8> = match fill {
+                                0 => vec![0u8; l],
+                                _ => (0..l).map(|_| rng.below(256) as u8).collect(),
+                            };
+                            // footer in both layouts (v3 written last so it wins where they overlap for v>=3)
+                            let order: [isize; 2] = if v <= 2 { [4, 0] } else { [0, 4] };
+                            for &tail in &order {
+                                put64(&mut b, l as isize - tail - 8, r);
+                                put64(&mut b, l as isize - tail - 16, n);
+                            }
+                            put64(&mut b, 0, v);
+                            cases.push(case_of(&b, stats));
+                            stats.bump("boundary_header_footer");
+                        }
+                    }
+                }
+            }
+        }
+        // (2) random strings, first bytes biased to small versions
+        for _ in 0..n_rand {
+            let l = match rng.below(4) {
+                0 => rng.range(0, 40),
+                1 => rng.range(28, 40),
+                _ => rng.range(0, 200),
+            };
+            let mut b: Vec<u8> = (0..l).map(|_| rng.below(256) as u8).collect();
+            if rng.chance(3, 4) {
+                put64(&mut b, 0, rng.below(5));
+            }
+            if rng.chance(1, 3) && l >= 12 {
+                let tail = if rng.chance(1, 2) { 4 } else { 0 };
+                put64(&mut b, l as isize - tail - 8, if rng.chance(1, 2) { 0 } else { (l as u64).wrapping_sub(rng.below(24)) });
+            }
+            cases.push(case_of(&b, stats));
+            stats.bump("random_strings");
+        }
+        // (3) valid built FSTs: as they are, every truncation, every position mutated
+        let mut valid = small_fsts(rng, n_valid, 12, 5);
+        {
+            // a few bigger ones
+            let ks = gen_keys(rng, 60, 8, 26);
+            let mut b = fst::SetBuilder::memory();
+            for k in &ks {
+                b.insert(k).unwrap();
+            }
+            valid.push(b.into_inner().unwrap());
+        }
+        for f in &valid {
+            cases.push(case_of(f, stats));
+            stats.bump("valid_fsts");
+            for cut in 0..f.len() {
+                cases.push(case_of(&f[..cut], stats));
+                stats.bump("truncations");
+            }
+            for pos in 0..f.len() {
+                for v in [f[pos] ^ (1 << rng.below(8)), rng.below(256) as u8, 0, 0xFF] {
+                    if v != f[pos] {
+                        let mut g = f.clone();
+                        g[pos] = v;
+                        cases.push(case_of(&g, stats));
+                        stats.bump("single_byte_mutations");
+                    }
+                }
+            }
+            // version field rewritten to 1 and 2 (old layouts without checksum)
+            for v in [1u64, 2] {
+                let mut g = f.clone();
+                put64(&mut g, 0, v);
+                cases.push(case_of(&g, stats));
+                cases.push(case_of(&g[..g.len() - 4], stats));
+                stats.bump("reversioned");
+            }
+        }
+        cases
+    }
+
+    fn nontrivial(&self, case: &str) -> bool {
+        // at least 32 bytes, i.e. gets past the first length check
+        case.split(' ').nth(1).map(|h| h.len() >= 64).unwrap_or(false)
+    }
+
+    fn execute(&self, case: &str) -> String {
+        let t: Vec<&str> = case.split(' ').collect();
+        let bytes = unhex(t[1]);
+        let want_root = t.get(2).map(|s| *s == "R").unwrap_or(false);
+        let root = if want_root {
+            match root_observable(&bytes) {
+                Some(r) => Some(r.to_string()),
+                None => Some("UNSTABLE".to_string()),
+            }
+        } else {
+            None
+        };
+        // open, accessors, verify: any panic surfaces as S:PANIC through the caller's catch_unwind;
+        // here it is caught to keep the message
+        let r = panic::catch_unwind(panic::AssertUnwindSafe(|| outcome(&bytes, root)));
+        match r {
+            Ok((_, _, _, s)) => format!("S:total\tM:{}", s),
+            Err(_) => "S:PANIC\tM:PANIC".to_string(),
+        }
+    }
+
+    fn extras(&self, _tier: Tier, _rng: &mut Rng, _stats: &mut Stats) -> Vec<(String, bool, String)> {
+        let repo = std::env::var("VERIF_REPO").unwrap_or_else(|_| "/repo".to_string());
+        let mut out = vec![];
+        // (1) token scan of the library sources
+        let mut files = vec![];
+        rs_files(&Path::new(&repo).join("src"), &mut files);
+        let mut hits = vec![];
+        let mut in_comments = 0usize;
+        for f in &files {
+            if let Ok(txt) = std::fs::read_to_string(f) {
+                for l in scan_unsafe(&txt) {
+                    hits.push(format!("{}:{}", f.display(), l));
+                }
+                in_comments += txt.matches("unsafe").count();
+            }
+        }
+        in_comments -= hits.len().min(in_comments);
+        out.push((
+            "unsafe_keyword_scan".to_string(),
+            hits.is_empty() && !files.is_empty(),
+            format!(
+                "{} files under {}/src scanned; `unsafe` as a code token: {}{}; occurrences inside comments/strings (not code): {}",
+                files.len(),
+                repo,
+                hits.len(),
+                if hits.is_empty() { String::new() } else { format!(" at {}", hits.join(", ")) },
+                in_comments
+            ),
+        ));
+        // (2) the compiler's own answer: forbid(unsafe_code) on the library crate
+        let target = std::env::current_exe()
+            .ok()
+            .and_then(|p| p.parent().and_then(|p| p.parent()).map(|p| p.join("forbid-unsafe")))
+            .unwrap_or_else(|| PathBuf::from("/tmp/fstv-forbid-unsafe"));
+        let res = std::process::Command::new("cargo")
+            .args(["rustc", "--offline", "-p", "fst", "--lib", "--features", "levenshtein", "--target-dir"])
+            .arg(&target)
+            .args(["--", "-F", "unsafe_code"])
+            .current_dir(&repo)
+            .env("CARGO_NET_OFFLINE", "true")
+            .env_remove("RUSTFLAGS")
+            .output();
+        match res {
+            Ok(o) => {
+                let err = String::from_utf8_lossy(&o.stderr);
+                let tail: String = err.lines().filter(|l| l.contains("error") || l.contains("unsafe") || l.contains("Finished")).take(6).collect::<Vec<_>>().join(" | ");
+                out.push((
+                    "rustc_forbid_unsafe_code".to_string(),
+                    o.status.success(),
+                    format!("cargo rustc --offline -p fst --lib --features levenshtein -- -F unsafe_code (cwd {}): exit {:?}; {}", repo, o.status.code(), tail),
+                ));
+            }
+            Err(e) => out.push(("rustc_forbid_unsafe_code".to_string(), false, format!("could not run cargo: {}", e))),
+        }
+        out
     }
 }
